@@ -4,6 +4,7 @@ package props
 
 import (
 	"encoding/json"
+	"expvar"
 	"fmt"
 	"strings"
 	"sync"
@@ -83,7 +84,7 @@ func leakCheck(t fataler, path string) bool {
 	return violation(t, "C19", sig, "a configured password appears in the output of path %q (%d records), e.g.: %s", path, len(leaks), what)
 }
 
-var c19Paths = []string{"restore-entry", "full-sync", "incremental", "resume-cuts", "checkpoint-load", "rump", "supervisor", "syncer-topology", "handshake", "reconnect-refused", "sync-end-to-end", "status-documents", "auth-type-unknown", "cluster-discovery", "supervisor-retry", "cluster-connect-failure"}
+var c19Paths = []string{"restore-entry", "full-sync", "incremental", "resume-cuts", "checkpoint-load", "rump", "supervisor", "syncer-topology", "handshake", "reconnect-refused", "sync-end-to-end", "status-documents", "auth-type-unknown", "cluster-discovery", "supervisor-retry", "cluster-connect-failure", "dump-slow-source"}
 
 // c19Path runs one of the tool's run paths (the other properties' drivers, with the sentinel
 // passwords configured everywhere and the log at a generated level) and scans what was printed.
@@ -159,6 +160,11 @@ func c19RunPath(t *rapid.T, path string) {
 		}
 		sh.plan[sh.nodes[len(sh.nodes)-1]][1] = nbMaster
 		runShard(sh)
+	case "dump-slow-source":
+		// dump mode against a source that needs more than a second before it announces the RDB (the progress line is printed)
+		c05ForcePreDelay = 1300 * time.Millisecond
+		c05Dump(t)
+		c05ForcePreDelay = 0
 	case "cluster-connect-failure":
 		// a connection of cluster type whose start node cannot be reached (checkpoint load, workers, rump against a cluster)
 		ln, err := netx.Listen()
@@ -256,6 +262,12 @@ func c19RunPath(t *rapid.T, path string) {
 		logcap.Cap.Scan("metric.NewMetricRest", mb)
 		sb, _ := json.Marshal(conf.GetSafeOptions())
 		logcap.Cap.Scan("config echo (GetSafeOptions)", sb)
+		// everything published through expvar is served under /debug/vars by the same HTTP server
+		expvar.Do(func(kv expvar.KeyValue) {
+			if kv.Key != "memstats" {
+				logcap.Cap.Scan("expvar "+kv.Key+" (/debug/vars)", []byte(kv.Value.String()))
+			}
+		})
 		logcap.Cap.Scan("config echo %+v", []byte(fmt.Sprintf("%+v", conf.GetSafeOptions())))
 	}
 	finished = true
